@@ -15,6 +15,9 @@ CLAIMED = {
  "C16": ("all-paths store=>notify typestate + provenance over go/ssa",
          "Static: every post-construction store of a limit's estimate is followed on every path to return by the notification routine carrying that value through EstimatedLimit's own conversion; the routine reaches every registered listener; NotifyOnChange registers (or forwards) on every path under the mutex; wrappers report and forward unchanged. Decided for all paths of all limit implementations; notification order under concurrent SetLimit is not decided.",
          "5/C16"),
+ "C14": ("all-paths gate/typestate analysis + field provenance + sibling agreement over go/ssa",
+         "Static: for the four gRPC wrappers, on every path: wrapped call only after a successful Acquire on a config limiter; same limiter field for Acquire and the limit-exceeded classifier, disjoint between RecvMsg/SendMsg and matching the option named for the direction; refusal returns status.Error(classifier code) with no wrapped call and no completion; exactly one completion on the token after the call with the Success/Ignore/Dropped mapping exhaustive over the declared constants; results returned unchanged; defaults before options. Handler panics and out-of-enum classifier results are not covered.",
+         "5/C14"),
 }
 
 PENDING_REASON = "check not built yet in this session; see DESIGN.md section 5 for the planned static obligations"
